@@ -1116,6 +1116,28 @@ func (sh *Shell) CustomStart(name string, inputs []string, params []string) *OpI
 	return o
 }
 
+// CustomBarrier: the rendezvous of `op -barrier K` for Go-function tasks: the
+// caller blocks until K tasks with the same K are inside.
+func (sh *Shell) CustomBarrier(o *OpInst, k int) {
+	s := sh.s
+	if k <= 1 {
+		return
+	}
+	s.Pre("barrier", k, o.Key)
+	sh.barrierN[k]++
+	if sh.barrierN[k] >= k {
+		s.Probe("barrier-released")
+		for _, g := range sh.barrier[k] {
+			s.ready(g)
+		}
+		sh.barrier[k] = nil
+		sh.barrierN[k] -= k
+	} else {
+		sh.barrier[k] = append(sh.barrier[k], s.cur)
+		s.park(fmt.Sprintf("Go function of %s: barrier of %d", o.Name, k))
+	}
+}
+
 func (sh *Shell) CustomEnd(o *OpInst, code int) {
 	sh.finish(o, code, "")
 }
